@@ -14,7 +14,7 @@ pub fn lists() -> Vec<Vec<Det>> {
         vec![p(), p1(), s()],                                     // crowded, nested
         vec![p1(), p2()],
         vec![q().feat(&fb(), 0.9)],
-        vec![r(), p2().conf(0.6)],                                // rotated + lower confidence
+        vec![r(), p2().rot(-0.3).conf(0.6)],                      // rotated (positive and negative angle) + lower confidence
         vec![p().conf(0.03), q()],                                // below minimal confidence
         vec![p1().cid(7).feat(&fa(), 0.9), q().cid(-3), s().cid(11).feat(&fa1(), 0.2)],
     ]
